@@ -21,6 +21,10 @@ CLAIMED["C22"] = {
     "text": "Bounded model checking of the path-resolution logic: the real FileSystemLoader.resolve_path and PackageLoader._resolve_path run against SymPath, a stand-in for pathlib.Path answering from 7-10 symbolic booleans (name, suffix, '..' part, absolute, exists, is_file, resolves-inside, reject_symlinks, ext, 1-2 search paths); z3 decides on every path that a path is returned only for relative, '..'-free, existing files that resolve inside when symlinks are rejected, and that only TemplateNotFoundError is raised otherwise (path tree exhausted). Complemented by solver-steered enumeration (sel_only) of the real plain / caching / package loaders, sync and async, on template names assembled from fragment pools (7 prefixes x 15 x 16 x 5) against a sandbox tree with decoys and symlinks.",
     "note": "Trusted: CrossHair/z3; the SymPath contract (a relative path without '..' joined to base is lexically inside base); pathlib and the OS for the enumerated names; an inline stand-in for asyncio's executor.",
 }
+CLAIMED["C23"] = {
+    "text": "Bounded model checking of one request against a caching loader whose cache was filled by earlier requests: symbolic template-name and namespace strings (<= 1-2 code points, so z3 can construct colliding cache keys), symbolic sync/async choice, globals, capacity 1..2, auto-reload flag and 'source edited' flag; the real CachingLoaderMixin (load, load_async, _check_cache*, cache_key) and LRUCache run on ModelOD; the oracle is relational: name, path, rendered output and effective globals equal those of the non-caching loader for the same request. Sequences of 3 requests with eviction, namespace from render context vs keyword, missing names; the shipped CachingDictLoader/CachingChoiceLoader with names from a pool (sel_only).",
+    "note": "Trusted: CrossHair/z3; ModelOD stub for OrderedDict (validated every run); FakePath stand-in for pathlib.Path in liquid.loader; coroutines driven without an event loop. One listed known finding (non-injective cache key) is excluded by a predicate over the arguments.",
+}
 NOT_APPLICABLE = {
     "C11": "delimiters flow only into re.escape/re.compile and functools.lru_cache keys (C code needing concrete values): no dimension is left for a solver to decide; enumerating delimiter sets would be bounded testing, a different technique (DESIGN.md §6)",
 }
